@@ -77,6 +77,11 @@ def generate(seed, tier='quick'):
 def replay(ctx, plan, ops, label, doomed_at=None, doomed=None):
     """Run ops (with an optional doomed call before index doomed_at) on a fresh object; returns dict."""
     w = ctx.world
+    # every replica starts every entropy stream from its beginning - also the per-generation streams that a restart
+    # inside the history switches to (a cached stream would go on where the previous replica left it, and a random
+    # MBR id drawn after a restart would differ between the replicas)
+    for name in [n for n in w._rngs if n.startswith('entropy.')]:
+        del w._rngs[name]
     w.reset_entropy('c14')
     w.generation = 0
     d = Driver(w, plan['cfg'])
